@@ -12,7 +12,13 @@ CONSTANTS
   FBKinds = {"ok"}
   MaxFaulty = 0
   HintKeyed = FALSE
+  Shuffles = {FALSE}
+  ShardReps = 0
+  ShardProcs = 0
+  ShardFlips = 0
+  InPlace = FALSE
 INVARIANT Honest
+INVARIANT OnlyWhoAnswers
 INVARIANT ColdWhenOld
 INVARIANT RetentionHonest
 INVARIANT FetchIsGreedy
